@@ -54,7 +54,9 @@ def run(c, facts, tier):
     c.decided = ["rendering never changes the compiled expression or its table", "same path ⇒ identical program", "different paths differ in exactly one place", "that place is a string literal naming the device (decoding given a sanitiser)"]
     st = facts.struct("CompiledExpression")
     # C20.pure
-    meths = [fn for fn in facts.nontest_fns() if fn.impl is not None and norm_ty(fn.impl["self_ty"]) == "CompiledExpression"]
+    # methods, i.e. functions with a receiver: an associated function without one (a constructor) has no compiled expression
+    # it could change
+    meths = [fn for fn in facts.nontest_fns() if fn.impl is not None and norm_ty(fn.impl["self_ty"]) == "CompiledExpression" and fn.node.get("self") is not None]
     for fn in meths:
         c.ob("C20.pure", fn.key, "receiver is &self", fn.node["self"] == "&self", "receiver `%s`" % fn.node["self"], witness="render twice; the second program differs" if fn.node["self"] != "&self" else None)
     c.ob("C20.pure", "CompiledExpression", "rendering API present", {"scheme", "io_map"} <= {fn.name for fn in meths}, "methods: %s" % sorted(fn.name for fn in meths), nontrivial=False)
